@@ -76,20 +76,21 @@ impl ExclusiveExtractor for MultipartBody {
                     format!("invalid content type: {}", e),
                 )
             })?;
-        // The boundary is the string after the "boundary=" part of the
-        // content-type header.
+        // The boundary is the "boundary" parameter of the content-type
+        // header (a token or a quoted string, among other parameters).
         let boundary =
-            content_type.split("boundary=").nth(1).ok_or_else(|| {
-                HttpError::for_bad_request(
+            multer::parse_boundary(content_type).map_err(|e| match e {
+                multer::Error::NoBoundary => HttpError::for_bad_request(
                     None,
                     "missing boundary in content-type header".to_string(),
-                )
+                ),
+                e => HttpError::for_bad_request(
+                    None,
+                    format!("invalid content type: {}", e),
+                ),
             })?;
         Ok(MultipartBody {
-            content: multer::Multipart::new(
-                body.into_data_stream(),
-                boundary.to_string(),
-            ),
+            content: multer::Multipart::new(body.into_data_stream(), boundary),
         })
     }
 
